@@ -174,8 +174,16 @@ func (d *DKG) ProcessDeals() (responses []*dkg.Response, err error) {
 		}
 	}()
 
-	responses = make([]*dkg.Response, 0)
+	// every response is signed with a nonce drawn from the round's deterministic stream: the deals have to be processed
+	// in the same order whenever this step runs, or a replay signs other messages with the same nonces
+	deals := make([]*dkg.Deal, 0, len(d.deals))
 	for _, deal := range d.deals {
+		deals = append(deals, deal)
+	}
+	sort.Slice(deals, func(i, j int) bool { return deals[i].Index < deals[j].Index })
+
+	responses = make([]*dkg.Response, 0)
+	for _, deal := range deals {
 		if deal.Index == uint32(d.ParticipantID) {
 			continue
 		}
